@@ -231,17 +231,22 @@ def r4(run, ctx):
                 return True
             return None
         return p
-    sig = [n for n in assigns if 'WTERMSIG' in norm_text(n.ast.value)]
-    ext = [n for n in assigns if 'WEXITSTATUS' in norm_text(n.ast.value)]
+    from sa.dataflow import reaching_defs
+    rdx = reaching_defs(ctx, f)
+
+    def value_texts(n):          # the assigned value, seen through temporaries
+        return {a.text() for a in rdx.expand(n, n.ast.value, stop=('status',))}
+    sig = [n for n in assigns if any('WTERMSIG' in t_ for t_ in value_texts(n))]
+    ext = [n for n in assigns if any('WEXITSTATUS' in t_ for t_ in value_texts(n))]
     if run.need('R4', sig, 'exit_code from WTERMSIG', f) and run.need('R4', ext, 'exit_code from '
                                                                      'WEXITSTATUS', f):
         for n in sig:
-            run.check('R4', norm_text(n.ast.value) == '-os.WTERMSIG(status)' and
+            run.check('R4', value_texts(n) == {'-os.WTERMSIG(status)'} and
                       guarded(cfg, n, pred('os.WIFSIGNALED'), True),
                       'killed by a signal -> exit_code = -signal number', f, n.ast,
                       'the exit_code of a signalled worker is not minus the signal number')
         for n in ext:
-            run.check('R4', norm_text(n.ast.value) == 'os.WEXITSTATUS(status)' and
+            run.check('R4', value_texts(n) == {'os.WEXITSTATUS(status)'} and
                       guarded(cfg, n, pred('os.WIFEXITED'), True) and
                       guarded(cfg, n, pred('os.WIFSIGNALED'), False),
                       'normal exit -> exit_code = exit status', f, n.ast,
